@@ -527,6 +527,34 @@ func (e *Env) expr(x ast.Expr) Value {
 				return e.x.assertType(e, a, t)
 			}
 		}
+		// a concrete value held in an interface: the assertion succeeds exactly when the dynamic
+		// type is the asserted one (decided statically on this path)
+		t := e.typeOf(n.Type)
+		if t == nil && e.contract {
+			if rt, err := e.x.U.resolveType(e.pkg, n.Type); err == nil {
+				t = rt
+			}
+		}
+		if t != nil {
+			var dt types.Type
+			switch c := v.(type) {
+			case PtrV:
+				dt = c.Typ
+			case StructV:
+				dt = c.Typ
+			case SliceV:
+				dt = c.Typ
+			}
+			if dt != nil {
+				if types.Identical(dt, t) {
+					return v
+				}
+				if !e.contract {
+					e.x.safety(e, "typeassert", n, FalseT)
+				}
+				return e.x.havoc(e, t, "typeassert")
+			}
+		}
 		unsupported("type assertion on %T", v)
 	}
 	unsupported("%s: expression %T", e.where, x)
@@ -1095,6 +1123,33 @@ func (e *Env) equalValues(a, b Value) (*Term, bool) {
 			return TrueT, true
 		}
 		unsupported("comparison of %T with nil", a)
+	}
+	// interface comparison between a wrapper struct and an interface value (see flatten)
+	if sa, ok := a.(StructV); ok {
+		if sb, ok := b.(Scalar); ok && sb.T.S.K == KUn && sb.Typ != nil {
+			if fl := e.x.flattenSafe(e, sa, sb.Typ); len(fl) == 1 && fl[0].S == sb.T.S {
+				return Eq(fl[0], sb.T), true
+			}
+		}
+	}
+	if _, ok := b.(StructV); ok {
+		if _, ok := a.(Scalar); ok {
+			return e.equalValues(b, a)
+		}
+	}
+	if pa, ok := a.(PtrV); ok && e.contract {
+		if pb, ok := b.(PtrV); ok {
+			same := pa.Alloc == pb.Alloc && len(pa.Path) == len(pb.Path)
+			if same {
+				for i := range pa.Path {
+					same = same && pa.Path[i] == pb.Path[i]
+				}
+			}
+			if same {
+				return Eq(pa.Nil, pb.Nil), true
+			}
+			return And(pa.Nil, pb.Nil), true
+		}
 	}
 	switch va := a.(type) {
 	case SliceV:
